@@ -38,6 +38,7 @@ type Ctx struct {
 	Level    string
 	Start    time.Time
 	Deadline time.Time // soft deadline of the exploration (zero: none)
+	Full     time.Time // deadline of the whole run (Deadline may be narrowed to a share of it)
 	Procs    int
 
 	mu          sync.Mutex
@@ -82,6 +83,41 @@ func (c *Ctx) SetBudget(d time.Duration) {
 		d = time.Duration(v) * time.Second
 	}
 	c.Deadline = c.Start.Add(d)
+	c.Full = c.Deadline
+}
+
+// Share narrows the deadline to d from now (never beyond the run's deadline):
+// every configuration/seed of a check gets its own slice of the budget.
+func (c *Ctx) Share(d time.Duration) {
+	nd := time.Now().Add(d)
+	if !c.Full.IsZero() && nd.After(c.Full) {
+		nd = c.Full
+	}
+	c.Deadline = nd
+}
+
+// Unshare restores the deadline of the whole run.
+func (c *Ctx) Unshare() { c.Deadline = c.Full }
+
+// Budget returns the total soft budget of the run.
+func (c *Ctx) Budget() time.Duration {
+	if c.Full.IsZero() {
+		return 0
+	}
+	return c.Full.Sub(c.Start)
+}
+
+// Phase narrows the deadline to `d` from now (never beyond the run's own
+// deadline) and returns a function restoring the previous deadline. Used to
+// give every configuration/seed of a check its own share of the budget.
+func (c *Ctx) Phase(d time.Duration) (restore func()) {
+	old := c.Deadline
+	nd := time.Now().Add(d)
+	if !old.IsZero() && nd.After(old) {
+		nd = old
+	}
+	c.Deadline = nd
+	return func() { c.Deadline = old }
 }
 
 // Expired reports whether the soft deadline has passed.
